@@ -136,8 +136,23 @@ def _ite_conditions(t, acc, limit=8):
         for ch in t.children(): _ite_conditions(ch, acc, limit)
 
 _inner_prove = prove
+def _strip(pc, goal):
+    """pc |- (A -> B)  iff  pc, A |- B ;   pc |- (G1 and (A -> B)) is split by the caller only for the single-implication form"""
+    goal = toz3(goal); pc = list(pc)
+    while z3.is_implies(goal):
+        pc.append(goal.arg(0)); goal = goal.arg(1)
+    return pc, goal
 def prove(pc, goal, timeout_ms=10000, axioms=True):
     """prove with one level of case splitting on ite-conditions of the goal (congruence lemmas may hold only per case)"""
+    pc, goal = _strip([toz3(p) for p in pc], goal)
+    if z3.is_and(goal) and any(z3.is_implies(ch) for ch in goal.children()):
+        # conjunction with guarded conjuncts (several bounded quantifiers in one clause): prove each conjunct under its own guard
+        t0 = time.time(); worst = None; lem = 0
+        for ch in goal.children():
+            v = prove(pc, ch, timeout_ms, axioms); lem += v.lemmas
+            if v.status != "proved": return Verdict(v.status, v.backend, time.time() - t0, model=v.model, lemmas=lem, detail=v.detail + f" [conjunct {str(ch)[:60]}]")
+            worst = v if worst is None or v.backend != "trivial" else worst
+        return Verdict("proved", worst.backend if worst else "trivial", time.time() - t0, lemmas=lem, detail="conjuncts proved separately")
     v = _inner_prove(pc, goal, timeout_ms, axioms)
     if v.status == "proved": return v
     conds = []; _ite_conditions(z3.simplify(toz3(goal)), conds)
